@@ -85,6 +85,21 @@ Definition law_reserve (unbounded : bool) (D : nat) (total tg : vec) (os : list 
       end
     end)) os.
 
+(* The real (float) loop finishes within K rounds.  Termination is NOT a theorem of the exact
+   model (Termination.v: exact_nontermination); the float loop leaves because a share below
+   half an ulp of deserved no longer changes it.  K comes from that analysis: while m queues
+   are unmet the heaviest of them holds >= 1/m of the weight, so the remaining amount of a
+   dimension it absorbs shrinks by (1 - 1/m) per round and is absorbed after at most
+   m * ln(range) rounds, range = 2^53 * largest amount * total weight (times 2^10 as margin); plus one
+   round per queue leaving and per (queue, dimension) saturating. *)
+Definition rounds_bound (D big : Z) (ws : list Z) : Z :=
+  let n := Z.of_nat (length ws) in
+  let W := fold_right Z.add 0%Z ws in
+  let bits := (63 + Z.log2_up (Z.max big 2) + Z.log2_up (Z.max W 2))%Z in
+  (n * (D + 2) + (n * (n + 1) / 2) * (bits * 7 / 10 + 1) + 2)%Z.
+Definition law_rounds (D big rounds : Z) (ws : list Z) : bool :=
+  negb (forallb (Z.ltb 0) ws) || Z.leb rounds (rounds_bound D big ws).
+
 (* tolerant comparison of a model value with an observed one *)
 Definition close (x y : Q) : bool :=
   Qle_bool (qabs (x - y)) ((2 # 1000000) + (1 # 1000000000) * qabs x).
